@@ -173,9 +173,24 @@ def str_names(values, nseed):
     return names
 
 
+def table_value(v, den, nseed, top):
+    """The value object stored in a dict / returned by a value function: a Python number, or - for a third of the naming seeds - a
+    numpy scalar of a narrow dtype (what one gets from dict(zip(names, some_array)))."""
+    if den != 1:
+        return v / den
+    if v < 0:
+        return v
+    if nseed % 6 == 4:
+        return np.uint8(v) if top < 2 ** 8 else np.uint16(v) if top < 2 ** 16 else v
+    if nseed % 6 == 5:
+        return np.int32(v) if top < 2 ** 31 else v
+    return v
+
+
 def present(values, pres="list", nseed=0, den=1):
     """Build the arguments for a call.  values: list of ints; den: common denominator (values are v/den)."""
     ev = exact_values(values, den)
+    top = max(values) if values else 0
     if pres == "list":
         items = [v if den == 1 else v / den for v in values]
         return Presented(items, None, list(ev), None, pres)
@@ -184,6 +199,8 @@ def present(values, pres="list", nseed=0, den=1):
         # raises where Python ints do not)
         top = max(values) if values else 0
         choice = nseed % 6
+        if values and min(values) < 0:
+            choice = 0                                  # negative values (C19's invalid inputs) need a signed dtype
         if den != 1 or choice in (1, 5):
             items = np.array([v / den for v in values], dtype=np.float64)
         elif choice == 2 and top < 2 ** 16:
@@ -199,19 +216,19 @@ def present(values, pres="list", nseed=0, den=1):
         return Presented(items, None, list(ev), None, pres)
     if pres == "dict-str":
         names = str_names(values, nseed)
-        d = {nm: (v if den == 1 else v / den) for nm, v in zip(names, values)}
+        d = {nm: table_value(v, den, nseed, top) for nm, v in zip(names, values)}
         return Presented(d, None, names, dict(zip(names, ev)), pres)
     if pres == "dict-int":
         names = int_names(values, nseed)
-        d = {nm: (v if den == 1 else v / den) for nm, v in zip(names, values)}
+        d = {nm: table_value(v, den, nseed, top) for nm, v in zip(names, values)}
         return Presented(d, None, names, dict(zip(names, ev)), pres)
     if pres == "names":
         names = str_names(values, nseed) if (nseed // 3) % 2 == 0 else int_names(values, nseed)
-        d = {nm: (v if den == 1 else v / den) for nm, v in zip(names, values)}
+        d = {nm: table_value(v, den, nseed, top) for nm, v in zip(names, values)}
         return Presented(list(names), (lambda name, _d=d: _d[name]), names, dict(zip(names, ev)), pres)
     if pres == "names-array":       # a numpy array of integer item ids plus a value function: two documented input kinds combined
         names = int_names(values, nseed)
-        d = {nm: (v if den == 1 else v / den) for nm, v in zip(names, values)}
+        d = {nm: table_value(v, den, nseed, top) for nm, v in zip(names, values)}
         return Presented(np.array(names, dtype=np.int64), (lambda name, _d=d: _d[name]), names, dict(zip(names, ev)), pres)
     raise env.HarnessError(f"unknown presentation {pres}")
 
@@ -526,6 +543,11 @@ def counting_clock(module_name):
             del mod.time
 
 
+def _python_values(valueof):
+    """Direct calls of an algorithm function bypass the adaptors; like them, hand the algorithm Python numbers, not numpy scalars."""
+    return lambda item: (lambda v: v.item() if isinstance(v, np.generic) else v)(valueof(item))
+
+
 def _norm_bins_result(res):
     """None | 'placeholder' | (sums, lists) from what an anytime algorithm returned when called with a contents manager."""
     if res is None:
@@ -548,7 +570,7 @@ def anytime_call(alg, presented, numbins, opts, time_limit):
         valueof, items = items.__getitem__, list(items.keys())
     if valueof is None:
         valueof = lambda x: x                                  # noqa: E731
-    binner = prtpy.BinnerKeepingContents(valueof)
+    binner = prtpy.BinnerKeepingContents(_python_values(valueof))
     kw = build_opts(alg, opts)
     kw.pop("time_limit", None)
     if time_limit is not None:
@@ -571,7 +593,7 @@ def ckk_generator_yields(presented, numbins):
         valueof, items = items.__getitem__, list(items.keys())
     if valueof is None:
         valueof = lambda x: x                                  # noqa: E731
-    binner = prtpy.BinnerKeepingContents(valueof)
+    binner = prtpy.BinnerKeepingContents(_python_values(valueof))
 
     def run():
         return [_norm_bins_result(y) for y in generator(binner, numbins, items)]
